@@ -186,7 +186,23 @@ func (s *dohServer) handler(w http.ResponseWriter, r *http.Request) {
 	}
 	switch f.kind {
 	case "ok", "oversize":
-		_, _ = w.Write(mk(f.arg))
+		b := mk(f.arg)
+		if f.kind == "ok" && f.salt%2 == 0 {
+			// the length is announced (Content-Length) and, for every other such answer, the body leaves in two pieces
+			// with a flush in between: how the body is cut up on its way must not matter to the client
+			w.Header().Set("Content-Length", strconv.Itoa(len(b)))
+			if f.salt%4 == 0 && len(b) >= 2 {
+				k := 1 + (f.salt/4)%(len(b)-1)
+				_, _ = w.Write(b[:k])
+				if fl, ok := w.(http.Flusher); ok {
+					fl.Flush()
+				}
+				time.Sleep(2 * time.Millisecond)
+				_, _ = w.Write(b[k:])
+				return
+			}
+		}
+		_, _ = w.Write(b)
 	case "malformed":
 		b := mk(f.arg)
 		for i := range b {
